@@ -134,6 +134,8 @@ Ok(o) ==
      /\ o.stored => (o.second.label = "hit" /\ o.second.contacts = 0 /\ o.second.sameVersion)
      /\ ~o.stored => (o.second.contacts = 1 /\ ~o.second.sameVersion /\ o.second.label # "hit")
      /\ (c.m \notin {"GET", "HEAD"}) => (~o.stored /\ o.second.label = "passed")
+     (* a Range request for a stored key: a response labelled a hit involved no upstream contact, any other exactly one *)
+     /\ o.stored => (IF o.range.label = "hit" THEN o.range.contacts = 0 ELSE o.range.contacts = 1)
      (* a request whose forwarding failed was forwarded once, and its client is told so (no silent second attempt) *)
      /\ c.fault = "reset" => (o.first.status >= 400 /\ ~o.stored)
 
